@@ -8,6 +8,8 @@ from .properties import (
 )
 from .utils import PREFIX_21_REGEX
 
+PROPERTY_NAME_REGEX = re.compile(r"^[a-z0-9_]{3,250}\Z")
+
 
 def _validate_ref_props(props_map, is_observable20=False):
     """
@@ -59,6 +61,16 @@ def _validate_props(props_map, version, **kwargs):
     Raises:
         ValueError: If the properties do not conform.
     """
+    # Property names must be 3-250 characters from a-z, 0-9 and underscore
+    # ("id" is the one spec-defined name which is shorter).
+    for prop_name in props_map:
+        if prop_name != "id" and not re.match(PROPERTY_NAME_REGEX, prop_name):
+            raise ValueError(
+                "Property name '%s' must be 3 to 250 characters in length, "
+                "and only contain the characters a-z (lowercase ASCII), 0-9, "
+                "and underscore (_)." % prop_name,
+            )
+
     # Confirm conformance with STIX 2.1+ requirements for property names
     if version != "2.0":
         for prop_name, prop_value in props_map.items():
